@@ -48,7 +48,14 @@ func (r *reader) Token() (xml.Token, error) {
 		}
 	case xml.StartElement:
 		r.depth++
-		if r.ws && t.Name.Space == wsNamespace && !r.negotiating {
+		// Only top-level elements are stream headers of the WebSocket subprotocol:
+		// inside a stanza an element of that namespace is just payload.
+		if r.ws && t.Name.Space == wsNamespace && !r.negotiating && r.depth == 1 {
+			if t.Name.Local == "close" {
+				// The closing element of the WebSocket subprotocol ends the stream
+				// just like </stream:stream> does.
+				return nil, io.EOF
+			}
 			return nil, ErrUnexpectedRestart
 		}
 		if t.Name.Space != stream.NS {
